@@ -1,5 +1,6 @@
 """C16 -- periodic phase shift is a bijection of the unit cube."""
 from ..intervals import rule_M6
+from ..rowfacts import rule_M1
 
 LEVEL_TEXT = ('Abstract interpretation of PhaseShift.transform in an interval domain with '
               'open/closed ends and the documented float-modulo transfer function, in both '
@@ -8,6 +9,9 @@ LEVEL_TEXT = ('Abstract interpretation of PhaseShift.transform in an interval do
 
 def run(ctx):
     n = rule_M6(ctx)
+    # where the shift is applied: forward on entry to contains(), inverse exactly once on
+    # exit from sample() (also for proposals produced by pool workers)
+    rule_M1(ctx)
     ctx.require(n >= 2, 'M6 evaluated only %d column stores (floor 2: forward and inverse)' % n)
     ctx.floor('M6', 5, 'closure obligations')
     ctx.assumptions += ['float a % 1 lies in [0,1) for a >= 0 and in [0,1] when a may be '
